@@ -27,6 +27,7 @@ def task_tla(t):
         ("manual", tla(t["manual"])), ("preok", tla(all(p["ok"] for p in t["pre"]))),
         ("xok", tla(all(t["xsat"].values()) if t["xsat"] else True)),
         ("complete", tla(t["complete"])), ("fwait", tla(t["fwait"])),
+        ("etry", str(t["etry"])), ("stry", str(t["stry"])),
     ]
     return "[" + ", ".join(f"{k} |-> {v}" for k, v in f) + "]"
 
@@ -62,7 +63,27 @@ def event_tla(ev):
     cx = tla(set(ev.get("cx", [])))
     f = [("e", tla(e))]
     if e == "spawn":
-        f += [("t", task_tla(ev["t"])), ("cx", cx)]
+        par = ev.get("parent")
+        f += [("t", task_tla(ev["t"])), ("cx", cx), ("haspar", tla(bool(par))),
+              ("parflows", tla(set(par["flows"])) if par else "{}")]
+    elif e == "merge":
+        f += [("id", _id(ev["id"])), ("before", tla(set(ev["before"]))), ("added", tla(set(ev["added"]))),
+              ("after", tla(set(ev["after"]))), ("inpool", tla(ev["inpool"]))]
+    elif e == "flow":
+        f += [("asked", str(ev["asked"] if isinstance(ev["asked"], int) else -1)), ("got", str(ev["got"])),
+              ("new", tla(ev["new"])), ("known", tla(set(ev["known"])))]
+    elif e == "cmd":
+        a = ev.get("args") or {}
+        ids = []
+        for tk in a.get("tasks") or []:
+            try:
+                p_, n_ = tk.split("/")
+                ids.append([n_, int(p_)])
+            except ValueError:
+                pass
+        fl = a.get("flow") or []
+        f += [("name", tla(ev["name"])), ("ids", _ids_set(ids)), ("flow", tla(set(str(x) for x in fl))),
+              ("outs", tla(set(a.get("outputs") or []))), ("pres", tla(set(a.get("prerequisites") or [])))]
     elif e == "remove":
         f += [("t", task_tla(ev["t"])), ("reason", tla("completed" if ev["reason"] == "completed" else ev["reason"])), ("cx", cx)]
     elif e == "state":
@@ -109,7 +130,7 @@ def event_tla(ev):
         return None
     return "[" + ", ".join(f"{k} |-> {v}" for k, v in f) + "]"
 
-KEEP = {"cmd_done", "env_job", "sched_stop", "restored", "crash", "env_launch", "spawn", "remove", "state", "prepare", "msg", "q_release", "rh_compute", "loop_end", "boot", "set_stop",
+KEEP = {"merge", "flow", "cmd", "cmd_done", "env_job", "sched_stop", "restored", "crash", "env_launch", "spawn", "remove", "state", "prepare", "msg", "q_release", "rh_compute", "loop_end", "boot", "set_stop",
         "stall", "end"}
 
 def run_tla(w_tla: str, events: list, opt: dict):
